@@ -292,7 +292,7 @@ def run(tier, seed, out, drv, facts):
         out.case(("direct", name, cls), fired, sample={"operation": name, "class": cls, "raised": fired})
         evaluate_after(out, f"direct:{name}:{cls}", f"fault of class {cls} at {name}", {"operation": name, "class": cls})
     # --- random histories of public-API operations, then probes
-    n = 5000 if thorough else 200
+    n = 30000 if thorough else 200
     extra = history_ops(rng)
     for i in range(n):
         X = Float[Duck, "2"]
